@@ -1,0 +1,314 @@
+//! Verification hooks (only compiled with `--cfg redb_verif`): thin public wrappers over internal,
+//! otherwise crate-private, pure components so that an external harness can drive them.
+//! Nothing in here changes behaviour of the crate; every function delegates to the real code.
+
+use crate::tree_store::page_store::base::PageNumber;
+use crate::tree_store::page_store::bitmap::{BtreeBitmap, U64GroupedBitmap};
+use crate::tree_store::page_store::buddy_allocator::BuddyAllocator;
+use crate::tree_store::page_store::layout::DatabaseLayout;
+use crate::tree_store::page_store::page_manager::xxh3_checksum;
+use crate::tree_store::page_store::region::{Allocators, RegionTracker};
+use alloc::vec::Vec;
+
+pub fn xxh3_128(data: &[u8]) -> u128 {
+    xxh3_checksum(data)
+}
+
+pub struct VBuddy(BuddyAllocator);
+
+impl VBuddy {
+    pub fn new(num_pages: u32, max_page_capacity: u32) -> Self {
+        Self(BuddyAllocator::new(num_pages, max_page_capacity))
+    }
+    pub fn from_bytes(data: &[u8]) -> Self {
+        Self(BuddyAllocator::from_bytes(data))
+    }
+    pub fn to_vec(&self) -> Vec<u8> {
+        self.0.to_vec()
+    }
+    pub fn alloc(&mut self, order: u8) -> Option<u32> {
+        self.0.alloc(order)
+    }
+    pub fn alloc_lowest(&mut self, order: u8) -> Option<u32> {
+        self.0.alloc_lowest(order)
+    }
+    pub fn record_alloc(&mut self, page: u32, order: u8) -> bool {
+        self.0.record_alloc(page, order)
+    }
+    pub fn free(&mut self, page: u32, order: u8) -> u8 {
+        self.0.free(page, order)
+    }
+    pub fn resize(&mut self, new_size: u32) {
+        self.0.resize(new_size);
+    }
+    pub fn len(&self) -> u32 {
+        self.0.len()
+    }
+    pub fn get_max_order(&self) -> u8 {
+        self.0.get_max_order()
+    }
+    pub fn highest_free_order(&self) -> Option<u8> {
+        self.0.highest_free_order()
+    }
+    pub fn count_allocated_pages(&self) -> u32 {
+        self.0.count_allocated_pages()
+    }
+    pub fn count_free_pages(&self) -> u32 {
+        self.0.count_free_pages()
+    }
+    pub fn trailing_free_pages(&self) -> u32 {
+        self.0.trailing_free_pages()
+    }
+    pub fn xxh3_hash(&self) -> u128 {
+        self.0.xxh3_hash()
+    }
+}
+
+pub struct VBtreeBitmap(BtreeBitmap);
+
+impl VBtreeBitmap {
+    pub fn new(num_pages: u32, capacity: u32) -> Self {
+        Self(BtreeBitmap::new(num_pages, capacity))
+    }
+    pub fn new_padded(num_pages: u32, capacity: u32, max_capacity: u32) -> Self {
+        Self(BtreeBitmap::new_padded(num_pages, capacity, max_capacity))
+    }
+    pub fn from_bytes(data: &[u8]) -> Self {
+        Self(BtreeBitmap::from_bytes(data))
+    }
+    pub fn to_vec(&self) -> Vec<u8> {
+        self.0.to_vec()
+    }
+    pub fn len(&self) -> u32 {
+        self.0.len()
+    }
+    pub fn get(&self, i: u32) -> bool {
+        self.0.get(i)
+    }
+    pub fn set(&mut self, i: u32) {
+        self.0.set(i);
+    }
+    pub fn clear(&mut self, i: u32) {
+        self.0.clear(i);
+    }
+    pub fn alloc(&mut self) -> Option<u32> {
+        self.0.alloc()
+    }
+    pub fn find_first_unset(&self) -> Option<u32> {
+        self.0.find_first_unset()
+    }
+    pub fn count_unset(&self) -> u32 {
+        self.0.count_unset()
+    }
+    pub fn has_unset(&self) -> bool {
+        self.0.has_unset()
+    }
+    pub fn resize(&mut self, new_len: u32, full: bool) {
+        self.0.resize(new_len, full);
+    }
+}
+
+pub struct VU64Bitmap(U64GroupedBitmap);
+
+impl VU64Bitmap {
+    pub fn new_full(len: u32, capacity: u32) -> Self {
+        Self(U64GroupedBitmap::new_full(len, capacity))
+    }
+    pub fn from_bytes(data: &[u8]) -> Self {
+        Self(U64GroupedBitmap::from_bytes(data))
+    }
+    pub fn to_vec(&self) -> Vec<u8> {
+        self.0.to_vec()
+    }
+    pub fn len(&self) -> u32 {
+        self.0.len()
+    }
+    pub fn get(&self, bit: u32) -> bool {
+        self.0.get(bit)
+    }
+    pub fn set(&mut self, bit: u32) -> bool {
+        self.0.set(bit)
+    }
+    pub fn clear(&mut self, bit: u32) {
+        self.0.clear(bit);
+    }
+    pub fn resize(&mut self, new_len: u32, full: bool) {
+        self.0.resize(new_len, full);
+    }
+}
+
+pub struct VRegionTracker(RegionTracker);
+
+impl VRegionTracker {
+    pub fn new(regions: u32, orders: u8) -> Self {
+        Self(RegionTracker::new(regions, orders))
+    }
+    pub fn from_bytes(data: &[u8]) -> Self {
+        Self(RegionTracker::from_bytes(data))
+    }
+    pub fn to_vec(&self) -> Vec<u8> {
+        self.0.to_vec()
+    }
+    pub fn find_free(&self, order: u8) -> Option<u32> {
+        self.0.find_free(order)
+    }
+    pub fn mark_free(&mut self, order: u8, region: u32) {
+        self.0.mark_free(order, region);
+    }
+    pub fn mark_full(&mut self, order: u8, region: u32) {
+        self.0.mark_full(order, region);
+    }
+}
+
+/// (number of full regions, pages per full region, header pages, page size, trailing region pages)
+#[derive(Clone, Copy, Debug, Eq, PartialEq)]
+pub struct VLayout {
+    pub num_full_regions: u32,
+    pub full_region_pages: u32,
+    pub header_pages: u32,
+    pub page_size: u32,
+    pub trailing_pages: Option<u32>,
+    pub num_regions: u32,
+    pub len: u64,
+    pub usable_bytes: u64,
+}
+
+fn vlayout(l: &DatabaseLayout) -> VLayout {
+    VLayout {
+        num_full_regions: l.num_full_regions(),
+        full_region_pages: l.full_region_layout().num_pages(),
+        header_pages: l.full_region_layout().get_header_pages(),
+        page_size: l.full_region_layout().page_size(),
+        trailing_pages: l
+            .trailing_region_layout()
+            .map(super::layout::RegionLayout::num_pages),
+        num_regions: l.num_regions(),
+        len: l.len(),
+        usable_bytes: l.usable_bytes(),
+    }
+}
+
+pub fn layout_calculate(
+    desired_usable_bytes: u64,
+    page_capacity: u32,
+    region_header_pages: u32,
+    page_size: u32,
+) -> VLayout {
+    vlayout(&DatabaseLayout::calculate(
+        desired_usable_bytes,
+        page_capacity,
+        region_header_pages,
+        page_size,
+    ))
+}
+
+pub fn layout_recalculate(
+    file_len: u64,
+    region_header_pages: u32,
+    region_max_data_pages: u32,
+    page_size: u32,
+) -> VLayout {
+    vlayout(&DatabaseLayout::recalculate(
+        file_len,
+        region_header_pages,
+        region_max_data_pages,
+        page_size,
+    ))
+}
+
+pub fn layout_region_base_address(
+    file_len: u64,
+    region_header_pages: u32,
+    region_max_data_pages: u32,
+    page_size: u32,
+    region: u32,
+) -> u64 {
+    DatabaseLayout::recalculate(
+        file_len,
+        region_header_pages,
+        region_max_data_pages,
+        page_size,
+    )
+    .region_base_address(region)
+}
+
+pub fn page_number_to_le_bytes(region: u32, page_index: u32, page_order: u8) -> [u8; 8] {
+    PageNumber::new(region, page_index, page_order).to_le_bytes()
+}
+
+pub fn page_number_from_le_bytes(bytes: [u8; 8]) -> (u32, u32, u8) {
+    let p = PageNumber::from_le_bytes(bytes);
+    (p.region, p.page_index, p.page_order)
+}
+
+pub fn page_number_address_range(
+    region: u32,
+    page_index: u32,
+    page_order: u8,
+    data_section_offset: u64,
+    region_size: u64,
+    region_pages_start: u64,
+    page_size: u32,
+) -> (u64, u64) {
+    let r = PageNumber::new(region, page_index, page_order).address_range(
+        data_section_offset,
+        region_size,
+        region_pages_start,
+        page_size,
+    );
+    (r.start, r.end)
+}
+
+/// `Allocators` built from a layout described by its file length and geometry
+pub struct VAllocators(Allocators);
+
+impl VAllocators {
+    pub fn new(
+        file_len: u64,
+        region_header_pages: u32,
+        region_max_data_pages: u32,
+        page_size: u32,
+    ) -> Self {
+        Self(Allocators::new(DatabaseLayout::recalculate(
+            file_len,
+            region_header_pages,
+            region_max_data_pages,
+            page_size,
+        )))
+    }
+    pub fn resize_to(
+        &mut self,
+        file_len: u64,
+        region_header_pages: u32,
+        region_max_data_pages: u32,
+        page_size: u32,
+    ) {
+        self.0.resize_to(DatabaseLayout::recalculate(
+            file_len,
+            region_header_pages,
+            region_max_data_pages,
+            page_size,
+        ));
+    }
+    pub fn num_regions(&self) -> usize {
+        self.0.region_allocators.len()
+    }
+    pub fn region_to_vec(&self, region: usize) -> Vec<u8> {
+        self.0.region_allocators[region].to_vec()
+    }
+    pub fn tracker_to_vec(&self) -> Vec<u8> {
+        self.0.region_tracker.to_vec()
+    }
+    pub fn tracker_find_free(&self, order: u8) -> Option<u32> {
+        self.0.region_tracker.find_free(order)
+    }
+    pub fn region_alloc(&mut self, region: usize, order: u8) -> Option<u32> {
+        self.0.region_allocators[region].alloc(order)
+    }
+    pub fn region_free(&mut self, region: usize, page: u32, order: u8) -> u8 {
+        self.0.region_allocators[region].free(page, order)
+    }
+    pub fn xxh3_hash(&self) -> u128 {
+        self.0.xxh3_hash()
+    }
+}
